@@ -951,7 +951,16 @@ def gen_Validation(repo):
             dfl = [(const_str(k), const_str(v)) for k, v in zip(n.value.keys, n.value.values)]
     if dfl is None:
         raise AnchorLost("rdgridspace.py:set_boundary_conditions defaults")
-    L.append("def pyBoundaryDefaults : List (String × String) := %s\n" % lean_list(["(%s, %s)" % (lean_str(a), lean_str(b)) for a, b in dfl]))
+    L.append("def pyBoundaryDefaults : List (String × String) := %s" % lean_list(["(%s, %s)" % (lean_str(a), lean_str(b)) for a, b in dfl]))
+    # is anything stored before the input has been validated? (position of the defaults assignment vs the first raising loop)
+    i_assign = min(i for i, n in enumerate(sbc.body) if isinstance(n, ast.Assign) and _norm(grid, n.targets[0]) == "self._boundary_conditions")
+    i_check = [i for i, n in enumerate(sbc.body) if isinstance(n, ast.For) and any(isinstance(x, ast.Raise) for x in ast.walk(n))]
+    if not i_check:
+        raise AnchorLost("rdgridspace.py:set_boundary_conditions validation loop")
+    stores_in_check_loop = any(isinstance(x, ast.Assign) and _norm(grid, x.targets[0]).startswith("self._boundary_conditions[")
+                               for x in ast.walk(sbc.body[i_check[0]]))
+    L.append("/-- does `set_boundary_conditions` store anything before the whole input is validated? -/")
+    L.append("def bcStoresBeforeValidation : Bool := %s\n" % ("true" if (i_assign < i_check[0] or stores_in_check_loop) else "false"))
 
     # ---- grid constructor size tests, cell_env length test
     ctor = _class_func(grid, "RDGridSpace", "__init__")
@@ -1082,6 +1091,13 @@ def gen_Validation(repo):
     tests = [(_norm(rds, n.test), [_norm(rds, b) for b in n.body]) for n in ast.walk(rinit) if isinstance(n, ast.If)]
     L.append("def systemInitBranches : List (String × List String) := %s\n" % lean_list(
         ["(%s, %s)" % (lean_str(a), lean_list([lean_str(x) for x in b])) for a, b in tests]))
+
+    sset = _class_func(rds, "RDSystem", "space", setter=True)
+    env_checked = any(isinstance(n, ast.If) and _raises(n.body) and "nenvironments()" in _norm(rds, n.test) for n in ast.walk(sset))
+    env_test = [ _norm(rds, n.test) for n in ast.walk(sset) if isinstance(n, ast.If) and _raises(n.body) and "nenvironments()" in _norm(rds, n.test)]
+    L.append("/-- does the `RDSystem.space` setter compare the cells' environment indices with the number of environments? -/")
+    L.append("def systemSpaceChecksEnv : Bool := %s" % ("true" if env_checked else "false"))
+    L.append("def systemSpaceEnvTests : List String := %s\n" % lean_list([lean_str(t) for t in env_test]))
 
     # ---- coarse-graining map rules, state-index guard
     cg = PySrc(repo, "src/strengths/coarsegrain.py")
